@@ -27,7 +27,7 @@ Print Assumptions footer_location_irrelevant.
 (** Batch-reader output (row alignment, values, null bitmaps, batch boundaries, final status): the same in the three
     modes for every valid file, projection and batch size - zero-copy shortcuts change how, never what. *)
 Theorem io_mode_irrelevant_batch : forall (A : Type) (garbage : A) (f : @mfile A) proj bs m1 m2,
-  proj <> [] -> Forall (rg_ok proj) f -> 0 < bs < 2^31 ->
+  proj <> [] -> Forall (rg_ok proj) f -> 0 < bs ->
   batches garbage true true m1 f proj bs = batches garbage true true m2 f proj bs.
 Proof. exact @io_mode_irrelevant_batch_proved. Qed.
 Print Assumptions io_mode_irrelevant_batch.
@@ -35,7 +35,7 @@ Print Assumptions io_mode_irrelevant_batch.
 (** On the pinned tree the modes differed (DESIGN F7; same witness as C02's batch_aligned_pinned_refuted). *)
 Theorem io_mode_irrelevant_pinned_refuted :
   exists (f : @mfile N) proj bs,
-    Forall (rg_ok proj) f /\ proj <> [] /\ 0 < bs < 2^31 /\
+    Forall (rg_ok proj) f /\ proj <> [] /\ 0 < bs /\
     (forall bl c, batches 0%N true false Mmap f proj bs = Ok (bl, c) -> ~ Forall batch_aligned_prop bl) /\
     batches 0%N true false Mmap f proj bs <> batches 0%N true false Fread f proj bs.
 Proof. exact batch_aligned_pinned_refuted_proved. Qed.
